@@ -165,6 +165,22 @@ func c17Cases(level int) []SCase {
 				Axes: map[string]string{"pos": "helper-type-name", "leaf": n}})
 		}
 	}
+	// two structs of one run whose only property has the same Go field name but another JSON name (case / separator variants): yaml.v3 binds by
+	// the exact tag, encoding/json also case-insensitively - what one struct's field is tagged with must not come from the other
+	for _, pair := range [][2]string{{"Name", "name"}, {"a-b", "a_b"}, {"ID", "id"}, {"user id", "userId"}} {
+		for _, required := range []bool{false, true} {
+			inner := func(n string) J {
+				o := J{"type": "object", "properties": J{n: J{"type": "string", "minLength": 2}}}
+				if required {
+					o["required"] = A{n}
+				}
+				return o
+			}
+			cases = append(cases, SCase{ID: fmt.Sprintf("C17/same-field-name-two-structs/%s|%s/required=%v", pair[0], pair[1], required), Cfg: baseCfg(),
+				Axes:   map[string]string{"pos": "same-field-name", "leaf": pair[0] + "|" + pair[1]},
+				Schema: J{"type": "object", "properties": J{"s0": inner(pair[0]), "s1": inner(pair[1])}, "required": A{"s0", "s1"}}})
+		}
+	}
 	out := cases[:0:0]
 	for _, c := range cases {
 		c.Cfg.ExtraImports = true
